@@ -1253,7 +1253,7 @@ Proof.
       rewrite Hlen10. reflexivity. }
     rewrite H10. lia. }
   assert (Hpy9 : py_int (n_to_dec blen) = Some (Z.of_N blen)).
-  { apply py_int_n_to_dec. unfold small_frame in Hsmall. lia. }
+  { apply py_int_n_to_dec. unfold small_frame in Hsmall. revert Hsmall. generalize (10 ^ 4300). intros big Hsmall. lia. }
   exists (n_to_dec blen), (field T35 (msg_type m)),
          (field T49 (sender sess) :: field T56 (target sess) :: field T34 seq :: field T52 time :: tailf),
          (Z.of_N blen),
@@ -1346,3 +1346,62 @@ Corollary roundtrip_depth1 : forall G bs m sess time raw frame sess',
     /\ (forall silent, decode G bs frame silent = Ok (Some (decoded_of bs m sess seq time), zlen frame, Some frame))
     /\ seq_clause m sess raw seq sess'.
 Proof. intros. eapply roundtrip; eassumption. Qed.
+
+(* ------------------------------------------------------------------ the FIX 4.4 table, witnesses *)
+From Coq Require Import String Ascii.
+From AFGen Require Import GenGroups.
+
+Definition txt (x : string) : str := List.map N_of_ascii (list_ascii_of_string x).
+Definition plain (t v : string) : str * value := (txt t, VStr (txt v)).
+Definition grp (t : string) (items : list (list (str * value))) : str * value := (txt t, VGrp items).
+
+Lemma fix44_table_wf : wf_table GenGroups.table = true.
+Proof. vm_compute. reflexivity. Qed.
+
+Definition ex_sess : session := mkSession (txt "SND") (txt "TGT") 17.
+Definition ex_time : str := txt "20230101-10:00:00.000".
+
+(* AllocationInstruction-like message: NoAllocs / NoNestedPartyIDs / NoNestedPartySubIDs, three levels,
+   several items per level, optional members present and absent, values containing "=", "10=", "9=" *)
+Definition ex_nested : message := mkMsg (txt "J") [
+  plain "70" "alloc1";
+  grp "78" [
+    [plain "79" "acc1"; plain "80" "100";
+     grp "539" [ [plain "524" "p1"; plain "525" "D"; plain "538" "1";
+                  grp "804" [[plain "545" "s1"; plain "805" "1"]; [plain "545" "s2"; plain "805" "2"]]];
+                 [plain "524" "p2"; grp "804" [[plain "545" "s3"]]] ]];
+    [plain "79" "acc2"; grp "539" [[plain "524" "p3"]]; plain "81" "x=y"] ];
+  plain "58" "hello 10=000 9=5" ].
+
+Definition ex_frame (m : message) : str :=
+  match encode beginstring m ex_sess ex_time false with Ok (f, _) => f | Exc _ => [] end.
+
+Lemma nonvacuous :
+  wf_table GenGroups.table = true /\ wf_bs beginstring = true /\ wf_session ex_sess = true
+  /\ soh_free ex_time = true /\ wf_msg GenGroups.table ex_nested = true
+  /\ flat_msg ex_nested = false /\ depth1_msg ex_nested = false
+  /\ no_marker (ex_frame ex_nested) = true /\ small_frame (ex_frame ex_nested)
+  /\ encode beginstring ex_nested ex_sess ex_time false
+     = Ok (ex_frame ex_nested, mkSession (sender ex_sess) (target ex_sess) 18)
+  /\ decode GenGroups.table beginstring (ex_frame ex_nested) true
+     = Ok (Some (decoded_of beginstring ex_nested ex_sess (z_to_dec 17) ex_time),
+           zlen (ex_frame ex_nested), Some (ex_frame ex_nested)).
+Proof.
+  repeat split; try (vm_compute; reflexivity).
+Qed.
+
+(* D5: a well-formed message whose frame does not decode to itself: the whole frame is dropped *)
+Definition ex_marker_tag : message :=
+  mkMsg (txt "D") [plain "11" "id1"; plain "58" "FIX.x"; plain "55" "MSFT"].
+Definition ex_marker_value : message :=
+  mkMsg (txt "D") [plain "11" "id1"; plain "58" "see 8=FIX.4.4 spec"; plain "55" "MSFT"].
+
+Lemma marker_refuted : forall m, m = ex_marker_tag \/ m = ex_marker_value ->
+  wf_msg GenGroups.table m = true /\ flat_msg m = true /\ small_frame (ex_frame m)
+  /\ no_marker (ex_frame m) = false
+  /\ (exists sess', encode beginstring m ex_sess ex_time false = Ok (ex_frame m, sess'))
+  /\ decode GenGroups.table beginstring (ex_frame m) true = Ok (None, zlen (ex_frame m), None).
+Proof.
+  intros m [E|E]; subst m; repeat split; try (vm_compute; reflexivity);
+    eexists; vm_compute; reflexivity.
+Qed.
